@@ -1,5 +1,5 @@
 (* C31 — lemmas about the duplicate-block filter model (Model/C31.v). *)
-From Coq Require Import ZArith List Bool Lia Arith Permutation Sorting.Sorted.
+From Coq Require Import ZArith List Bool Lia Arith Permutation Sorting.Sorted ZifyBool.
 Import ListNotations.
 From Verif Require Import Lib.Corr Gen.C31 Model.C31.
 Open Scope Z_scope.
@@ -79,18 +79,21 @@ Proof. induction l as [|x l IH]; simpl; auto. rewrite insert_perm. now construct
 (* not (b before a) *)
 Definition le (a b : blk) : Prop := before b a = false.
 
+Lemma if_bool (c x y : bool) : (if c then x else y) = (c && x) || (negb c && y).
+Proof. destruct c, x, y; reflexivity. Qed.
+
+(* ULID.Compare(...) < 0 is "smaller ULID" *)
+Lemma ulid_first_spec x y : filterGroup_ulid_first (ulid_cmp x y) = (x <? y).
+Proof.
+  unfold filterGroup_ulid_first, ulid_cmp.
+  destruct (Z.compare_spec x y); destruct (Z.ltb_spec x y); try reflexivity; lia.
+Qed.
+
+(* the comparator as a boolean formula over integers; the arithmetic is then left to lia *)
 Ltac before_tac :=
-  unfold le, before, filterGroup_tie, filterGroup_ulid_first, filterGroup_len_first, ulid_cmp in *;
-  repeat match goal with
-  | H : context [?a ?= ?b] |- _ => destruct (Z.compare_spec a b)
-  | |- context [?a ?= ?b] => destruct (Z.compare_spec a b)
-  | H : context [?a =? ?b] |- _ => destruct (Z.eqb_spec a b)
-  | |- context [?a =? ?b] => destruct (Z.eqb_spec a b)
-  | H : context [?a <? ?b] |- _ => destruct (Z.ltb_spec a b)
-  | |- context [?a <? ?b] => destruct (Z.ltb_spec a b)
-  | H : context [?a >? ?b] |- _ => rewrite (Z.gtb_ltb a b) in H
-  | |- context [?a >? ?b] => rewrite (Z.gtb_ltb a b)
-  end; try congruence; try lia.
+  unfold le, before in *; rewrite ?if_bool, ?ulid_first_spec in *;
+  unfold filterGroup_tie, filterGroup_len_first, filterGroup_level_differs, filterGroup_level_first in *;
+  lia.
 
 Lemma le_trans a b c : le a b -> le b c -> le a c.
 Proof. intros H1 H2. before_tac. Qed.
